@@ -712,7 +712,9 @@ def replay(chk, rep):
         if m:
             j = int(m.group(1))
         ch = got[j] if (j is not None and j < len(got)) else (got[:1] if got else '?')
-        print('observed now: %s' % CH.get(ch, ch))
+        names = dict(CH, w='ok-after-write (bytes behind the view modified, handler not invoked)',
+                     W='ASSERT-after-write (bytes behind the view modified, then the handler)')
+        print('observed now: %s' % names.get(ch, ch))
         return 0 if CH.get(ch) == rep.get('observed', {}).get('spec') else 1
     finally:
         shutil.rmtree(d, ignore_errors=True)
